@@ -167,7 +167,7 @@ CHECKS['C03'] = (
 CHECKS['C11'] = (
     'Lean 4 theorems about the index-builder and filter models (latest = maximum, sorting keeps the entries, family/role/elements/substring filters are '
     'exactly the stated conditions and are ANDed) + differential execution of createMetadata and filterEntries against curate.metadata / api.filter_basis_sets',
-    'Proof (on the model): maxStr_is_max, mem_sortDict, filter_family_role, filter_elements, filter_substr, filter_and. Tie: model index = index written by '
+    'Proof (on the model): index_versions_are_table_files (the builder lists exactly the table files of a basis, each with its path and the elements of its composition — by induction over the fold of the model), maxStr_is_max, mem_sortDict, filter_family_role, filter_elements, filter_substr, filter_and. Tie: model index = index written by '
     'create_metadata_file (ordered JSON) on generated directories incl. aliases and planted defects; model filter = real filter on the shipped index. On the '
     'real data: shipped METADATA.json = its regeneration (all entries except the basis sets emptied in this sandbox), every entry against get_basis / the table '
     'files present / aliases / auxiliaries / lookup_basis_by_role, enumerations. Partial: index_spec as one theorem about createMetadata is not proved; its '
